@@ -10,7 +10,7 @@
    with any amounts and any number of changers (`good_init`). *)
 From Coq Require Import List ZArith NArith Bool.
 From Tele Require Import Gen.Consts Gen.GoFns Model.CounterConc Proofs.CounterWord Proofs.CounterInv Proofs.CounterThms Proofs.GoFnsCounter.
-From Tele Require Import Model.Register Proofs.RegisterFacts Proofs.CounterFault Proofs.CounterProgress.
+From Tele Require Import Model.Register Proofs.RegisterFacts Proofs.CounterFault Proofs.CounterProgress Proofs.CounterMono.
 Import ListNotations.
 Open Scope Z_scope.
 
@@ -26,6 +26,19 @@ Theorem C03_no_wrap : forall np s0 ts0 sched, good_init s0 ts0 ->
   Forall (fun c => 0 <= c < W64) (s_cells s).
 Proof. exact no_wrap. Qed.
 Print Assumptions C03_no_wrap.
+
+(* ... and as a statement about histories: between any two instants of any
+   schedule (sched1, then sched2 more steps) no cell of any counter file goes
+   down and none disappears, so the persisted value (the sum over the
+   process's files) never goes down either - at the limit it sticks.  The
+   harness checks the same on the implementation's observations (clause
+   no-wrap; scenarios whose persisted value starts a few units below 2^64-1). *)
+Theorem C03_persisted_never_decreases : forall np s0 ts0 sched1 sched2, good_init s0 ts0 ->
+  let s1 := fst (run np sched1 (s0, ts0)) in
+  let s2 := fst (run np (sched1 ++ sched2) (s0, ts0)) in
+  cells_le (s_cells s1) (s_cells s2) /\ persisted s1 <= persisted s2.
+Proof. exact persisted_never_decreases. Qed.
+Print Assumptions C03_persisted_never_decreases.
 
 (* Saturation instead of wrapping (one-step facts about the two adds). *)
 Theorem C03_add_extra_saturates : forall w n, 0 <= w < W64 -> 0 <= n ->
